@@ -1,6 +1,6 @@
 """C07 — surface views are exact, non-aliasing windows: memory-safety and containment clauses."""
 import re
-from ..mir import call_matches, callee_name, op_local
+from ..mir import call_matches, callee_name, callee_names, op_local
 from ..flow import expr, place_expr, origins, resolve_place
 from ..discharge import Engine
 from .. import obligations
@@ -20,13 +20,16 @@ CLAIM = {
 }
 
 SHAPE_FIELDS = ["start", "end", "width", "height", "row_stride", "col_stride"]
+# the audited routines the rules name are never expanded into their callers
+KEEP7 = r"^surface::Shape::(offset|index|nth|view|size)$|^terminal::Position::new$"
 
 
-# ---- U8: two coordinate spaces ----------------------------------------------------------------------------
-# storage offsets (Shape::offset, shape.start/end, strides) index the backing slice; window indices
-# (row-major pos.row * width + pos.col, Shape::index) position a view iterator / feed Shape::nth.
-def _top_call(e):
-    """('Name', [args]) when the term is Name(args...) with balanced brackets spanning the whole term, else None"""
+# ============================================================================================================
+# Meaning-level helpers shared by the rules below (and imported by c08/c10): they make the rules independent of
+# which syntactic construct produced a guard, an index or a loop.
+# ============================================================================================================
+def split_call(e):
+    """('Name', [args]) for a canonical term Name(a, b, ..) whose brackets span the whole term; None otherwise"""
     m = re.match(r"^([A-Za-z_][\w:]*)\(", e)
     if not m or not e.endswith(")"):
         return None
@@ -52,6 +55,545 @@ def _top_call(e):
         else:
             cur += ch
     return None
+
+
+def flat_sum(e):
+    """sorted addends of a (nested) Add term: Add(a, Add(b, 1)) and Add(Add(1, b), a) give the same list"""
+    tc = split_call(e)
+    if tc and tc[0] == "Add" and len(tc[1]) == 2:
+        return sorted(flat_sum(tc[1][0]) + flat_sum(tc[1][1]))
+    return [e]
+
+
+def flat_prod(e):
+    tc = split_call(e)
+    if tc and tc[0] == "Mul" and len(tc[1]) == 2:
+        return sorted(flat_prod(tc[1][0]) + flat_prod(tc[1][1]))
+    return [e]
+
+
+def _rewrite_checked(e, name, op):
+    """name(a, b)@Some.0  ->  op(a, b): the payload of a successful checked operation is the plain result"""
+    start = 0
+    while True:
+        i = e.find(name + "(", start)
+        if i < 0:
+            return e
+        depth, j = 0, i + len(name)
+        for j in range(i + len(name), len(e)):
+            if e[j] in "([{":
+                depth += 1
+            elif e[j] in ")]}":
+                depth -= 1
+                if depth == 0:
+                    break
+        if depth == 0 and e.startswith("@Some.0", j + 1):
+            e = e[:i] + op + e[i + len(name):j + 1] + e[j + 1 + len("@Some.0"):]
+            start = i + len(op)
+        else:
+            start = i + len(name)
+
+
+def canon_arith(e):
+    """unsigned euclidean / operator-trait / checked spellings of the integer operators"""
+    if "num::checked_" in e:
+        for nm, op in (("num::checked_sub", "Sub"), ("num::checked_add", "Add"), ("num::checked_mul", "Mul"), ("num::checked_div", "Div"), ("num::checked_rem", "Rem")):
+            e = _rewrite_checked(e, nm, op)
+    e = re.sub(r"\bnum::div_euclid\(", "Div(", e)
+    e = re.sub(r"\bnum::rem_euclid\(", "Rem(", e)
+    e = re.sub(r"\bDiv::div\(", "Div(", e)
+    e = re.sub(r"\bRem::rem\(", "Rem(", e)
+    e = re.sub(r"\bAdd::add\(", "Add(", e)
+    e = re.sub(r"\bSub::sub\(", "Sub(", e)
+    e = re.sub(r"\bMul::mul\(", "Mul(", e)
+    return e
+
+
+# ---- inlining of private helpers (any number of callers) ------------------------------------------------------
+_INL_ANY = {}
+
+
+def would_inline(prog, callee, root):
+    """is `callee` expanded by inlined_private inside the body rooted at `root`?"""
+    from .. import inline
+    if callee is None or callee.kind not in ("Fn", "AssocFn") or callee.impl_trait or callee.path == root:
+        return False
+    if len(callee.blocks) > inline.MAX_BLOCKS or not callee.file.startswith("src/"):
+        return False
+    for bb, t in callee.calls():
+        if (t["fn"].get("resolved") or t["fn"].get("path")) == callee.path:
+            return False
+    if (callee.j.get("vis") or "Public").startswith("Restricted"):
+        return True
+    return inline.inlinable(prog, callee, root)
+
+
+def expanded_copies(prog, path, keep=None):
+    """bodies (with private helpers expanded) that together contain a copy of helper `path` for each of its call sites:
+    the helper's callers, or their callers when those are helpers themselves.  None when some call site is not expanded
+    (public function, recursion, too deep): the helper then has contexts this view does not show."""
+    hb = prog.body(path)
+    if hb is None or hb.kind not in ("Fn", "AssocFn") or hb.impl_trait:
+        return None          # trait methods are also reached by dynamic dispatch: their call sites are not all visible
+    cg = prog.callgraph()
+    roots, todo, seen = [], [path], set()
+    while todo:
+        p = todo.pop()
+        callers = [c for c in cg.callers(p) if c != p]
+        if not callers:
+            return None
+        for c in callers:
+            if c in seen:
+                continue
+            seen.add(c)
+            cb = prog.body(c)
+            if cb is None:
+                return None
+            up = [x for x in cg.callers(c) if x != c]
+            if cb.kind != "Closure" and up and all(would_inline(prog, cb, (prog.body(x).closure_root or x) if prog.body(x) is not None else x) for x in up):
+                todo.append(c)
+            else:
+                roots.append(c)
+    out = []
+    for r in roots:
+        ib = inlined_private(prog, r, keep=keep)
+        if ib is None or any(path in callee_names(t) for bb, t in ib.calls()) or not any(blk.get("inl_from") == path for blk in ib.blocks):
+            return None      # a call site that was not expanded / a caller that shows no copy of the helper
+        out.append(ib)
+    return out or None
+
+
+def inlined_private(prog, path, depth=3, keep=None):
+    """the body with every small *non-public* crate-local helper fn (and every helper sa/inline.py would expand) expanded in
+    place, whatever the number of its callers: `get` and `get_mut` sharing one extracted `is_outside` are the typical case.
+    Public functions (Shape::offset, Position::new, the trait's own methods ..) keep their calls: the rules name them."""
+    from .. import inline
+    from ..mir import Body
+    import copy
+    key = (id(prog), path, keep)
+    if key in _INL_ANY:
+        return _INL_ANY[key]
+    base = prog.body(path)
+    if base is None:
+        return None
+    root = base.closure_root or base.path
+
+    def ok(callee):
+        return would_inline(prog, callee, root) and not (keep and re.search(keep, callee.path))
+
+    j = None
+    blocks, locals_, vars_ = base.blocks, base.locals, base.j["vars"]
+    work = list(range(len(blocks)))
+    level = {i: 0 for i in work}
+    stack = {i: () for i in work}
+    while work:
+        bb = work.pop(0)
+        blk = blocks[bb]
+        t = blk["term"]
+        if t["k"] != "call" or level.get(bb, 0) >= depth or blk["cleanup"]:
+            continue
+        f = t["fn"]
+        cpath = f.get("resolved") if f.get("resolved_local") else (f.get("path") if f.get("local") else None)
+        callee = prog.body(cpath) if cpath else None
+        if callee is None or len(t["args"]) != callee.arg_count or cpath in stack.get(bb, ()) or not ok(callee):
+            continue
+        if j is None:
+            j = copy.deepcopy(base.j)
+            blocks, locals_, vars_ = j["blocks"], j["locals"], j["vars"]
+            blk = blocks[bb]
+            t = blk["term"]
+        lo, bo = len(locals_), len(blocks)
+        locals_.extend(copy.deepcopy(callee.locals))
+        for v in callee.j["vars"]:
+            vars_.append({"name": v["name"], "place": inline._shift(v["place"], lo, 0)})
+        for k, a in enumerate(t["args"]):
+            blk["stmts"].append({"k": "assign", "place": {"l": lo + 1 + k, "p": []}, "rv": {"k": "use", "a": a}, "line": t.get("line", 0), "exp": False, "expk": "", "inl_arg": callee.path})
+        dest, target, line = t["dest"], t["t"], t.get("line", 0)
+        blk["term"] = {"k": "goto", "t": bo, "inl_call": callee.path, "line": line}
+        for i, cb in enumerate(callee.blocks):
+            nb = inline._shift(cb, lo, bo)
+            nb["inl_from"] = cb.get("inl_from") or callee.path
+            if nb["term"]["k"] == "return":
+                nb["stmts"].append({"k": "assign", "place": dest, "rv": {"k": "use", "a": {"k": "move", "place": {"l": lo, "p": []}}}, "line": line, "exp": False, "expk": "", "inl_ret": callee.path})
+                nb["term"] = {"k": "goto", "t": target} if target >= 0 else {"k": "unreachable"}
+            blocks.append(nb)
+            level[bo + i] = level.get(bb, 0) + 1
+            stack[bo + i] = stack.get(bb, ()) + (cpath,)
+            work.append(bo + i)
+    out = base if j is None else Body(j, prog)
+    _INL_ANY[key] = out
+    return out
+
+
+# ---- path conditions: which comparisons hold on every way to a block ------------------------------------------
+_CMPS = ("Lt", "Le", "Gt", "Ge", "Eq", "Ne")
+
+
+def _strip_succ(e):
+    """x when e is x + 1 (either order), else None"""
+    tc = split_call(e)
+    if tc and tc[0] == "Add" and len(tc[1]) == 2:
+        if tc[1][1] == "1":
+            return tc[1][0]
+        if tc[1][0] == "1":
+            return tc[1][1]
+    return None
+
+
+def cmp_facts(op, a, b, truth):
+    """canonical facts (x, '<' | '<=' | '==' | '!=', y) carried by `op(a, b) == truth`"""
+    if op in ("Gt", "Ge"):
+        op, a, b = {"Gt": "Lt", "Ge": "Le"}[op], b, a
+    if op in ("Lt", "Le"):
+        if not truth:   # !(a < b) == b <= a ; !(a <= b) == b < a
+            op, a, b = {"Lt": "Le", "Le": "Lt"}[op], b, a
+        rel = "<" if op == "Lt" else "<="
+        if rel == "<" and _strip_succ(b) is not None:     # a < b' + 1  implies  a <= b'  (also when b' + 1 wraps: then nothing is < 0)
+            b, rel = _strip_succ(b), "<="
+        return [(a, rel, b)]
+    if op in ("Eq", "Ne"):
+        eq = (op == "Eq") == bool(truth)
+        x, y = sorted((a, b))
+        return [(x, "==" if eq else "!=", y)]
+    return []
+
+
+def implied(f, truth):
+    """facts that must hold when boolean formula f evaluates to `truth` (conjunctive part only: sound, not complete)"""
+    if f is None:
+        return []
+    k = f[0]
+    if k == "cmp":
+        return cmp_facts(f[1], f[2], f[3], truth)
+    if k == "pred":
+        return [(f[1], "is", "true" if truth else "false")]
+    if k == "not":
+        return implied(f[1], not truth)
+    if k == "and":
+        return implied(f[1], True) + implied(f[2], True) if truth else []
+    if k == "or":
+        return implied(f[1], False) + implied(f[2], False) if not truth else []
+    return []       # constants, debug-only comparisons
+
+
+def _is_debug_stmt(s):
+    return (s.get("expk") or "").startswith("bang:debug_assert")
+
+
+class PathBody:
+    """a Body in which the locals assigned several times have the one definition that a given path executed last: canonical terms
+    (flow.expr) computed on it are the terms of the values on that path"""
+
+    def __init__(self, body, chosen):
+        self._b = body
+        self._chosen = chosen
+
+    def __getattr__(self, n):
+        return getattr(self._b, n)
+
+    def defs_of(self, l):
+        d = self._chosen.get(l)
+        if d is not None:
+            return [d]
+        return self._b.defs_of(l)
+
+
+def norm_payload(e):
+    """Some(x)@Some.0, Some(x)@Continue.0 (through `?`), Ok(x)@Ok.0 / @Continue.0  ->  x"""
+    for _ in range(8):
+        m = re.search(r"\b(?:Option::Some|Result::Ok)\(", e)
+        found = False
+        while m:
+            depth, i = 0, m.end() - 1
+            for j in range(i, len(e)):
+                if e[j] in "([{":
+                    depth += 1
+                elif e[j] in ")]}":
+                    depth -= 1
+                    if depth == 0:
+                        break
+            tail = re.match(r"@(?:Some|Ok|Continue)\.0", e[j + 1:])
+            if depth == 0 and tail:
+                e = e[:m.start()] + e[i + 1:j] + e[j + 1 + tail.end():]
+                found = True
+                break
+            m = re.compile(r"\b(?:Option::Some|Result::Ok)\(").search(e, m.end())
+        if not found:
+            break
+    return e
+
+
+class PathEval:
+    """Enumerates the acyclic paths of a body with a tiny symbolic evaluation of boolean locals (constants, comparisons of canonical
+    terms, !, &, |, tuples of those, Range::contains, integer PartialOrd calls).  Switches on a known constant follow one edge; switches
+    on a formula add the facts the taken edge implies.  `at(bb)` gives, for every feasible path that reaches the terminator of bb,
+    (facts, env).  Comparisons written inside debug_assert! carry no fact (absent from release builds)."""
+    LIMIT = 60000
+
+    def __init__(self, body):
+        self.body = body
+        self.steps = 0
+        cnt = {}
+        for i, blk in enumerate(body.blocks):
+            for st in blk["stmts"]:
+                if st["k"] == "assign" and not st["place"]["p"]:
+                    cnt[st["place"]["l"]] = cnt.get(st["place"]["l"], 0) + 1
+            t = blk["term"]
+            if t["k"] == "call" and not t["dest"]["p"]:
+                cnt[t["dest"]["l"]] = cnt.get(t["dest"]["l"], 0) + 1
+        self.multi = {l for l, n in cnt.items() if n > 1}
+        self._tok = {}
+        self._loop_tok = None
+
+    # ---- writes: a fact about a place that is written afterwards no longer holds -------------------------------------
+    def _place_token(self, place):
+        l = place["l"]
+        if not place["p"]:
+            if l not in self.multi:
+                return None          # a temporary with one definition never changes
+            nm = self.body.varnames.get(l)
+            return "var:%s" % nm if nm else "_%d" % l
+        return place_expr(self.body, place)
+
+    def _tokens(self, bb):
+        """(terms of the places the statements of bb write, terms of the places its terminator writes)"""
+        if bb not in self._tok:
+            b = self.body
+            blk = b.blocks[bb]
+            st, tt = set(), set()
+            for s in blk["stmts"]:
+                if s["k"] == "assign" and not s.get("inl_arg") and not s.get("inl_ret"):
+                    st.add(self._place_token(s["place"]))
+                elif s["k"] == "setdiscr":
+                    st.add(self._place_token(s["place"]))
+            t = blk["term"]
+            if t["k"] == "call":
+                tt.add(self._place_token(t["dest"]))
+                tys = t.get("arg_tys") or []
+                for i, a in enumerate(t["args"]):
+                    if a["k"] == "const":
+                        continue
+                    ty = tys[i] if i < len(tys) else ""
+                    lt = b.local_ty(a["place"]["l"]) if not a["place"]["p"] else ""
+                    if ty.startswith(("&mut", "*mut")) or lt.startswith(("&mut", "*mut")):
+                        # what a mutable reference argument points to may be written by the callee; through `&mut [T]` / `&mut str` only the
+                        # elements, never the length
+                        elems = re.match(r"^&mut ('\w+ )?(\[|str\b)", ty or lt) is not None
+                        tt.add(expr(b, a) + ("\0elems" if elems else ""))
+            st.discard(None)
+            tt.discard(None)
+            self._tok[bb] = (st, tt)
+        return self._tok[bb]
+
+    def _loop_tokens(self, head):
+        if self._loop_tok is None:
+            self._loop_tok = {}
+            for h, blocks in self.body.cfg().loops().items():
+                ws = set()
+                for x in blocks:
+                    if not self.body.blocks[x]["cleanup"]:
+                        a, b_ = self._tokens(x)
+                        ws |= a | b_
+                self._loop_tok[h] = ws
+        return self._loop_tok.get(head, ())
+
+    @staticmethod
+    def _kill(facts, toks):
+        if not toks or not facts:
+            return facts
+        # a whole `&mut argN` handed to a callee may change what is *read through* it (argN.field, argN[..]); a term that merely passes the
+        # reference on (shape(arg1)) is the value of an earlier evaluation held in a temporary
+        rx = re.compile("|".join(r"(?<![\w.:])%s%s" % (re.escape(t.split("\0")[0]), r"(?=\[)" if t.endswith("\0elems") else r"(?=[.\[])" if re.fullmatch(r"arg\d+", t) else r"(?![\w])")
+                                 for t in sorted(toks, key=len, reverse=True)))
+        return frozenset(f for f in facts if not rx.search(f[0]) and not rx.search(f[2]))
+
+    def term(self, env, operand):
+        """canonical term of the operand's value on the path that produced env"""
+        chosen = {k[1]: v for k, v in env.items() if isinstance(k, tuple) and k[0] == "def"}
+        return norm_payload(canon_arith(expr(PathBody(self.body, chosen) if chosen else self.body, operand)))
+
+    def terms(self, bb, operand):
+        """set of terms of the operand over all feasible paths to bb (None: not enumerable)"""
+        r = self.at(bb)
+        if r is None:
+            return None
+        return {self.term(env, operand) for facts, env in r}
+
+    def _val(self, env, o):
+        if o["k"] == "const":
+            c = o["c"]
+            return ("c", int(c["int"])) if "int" in c and re.match(r"^-?\d+$", str(c["int"])) else None
+        p = o["place"]
+        if not p["p"]:
+            v = env.get(p["l"])
+            if v is None and p["l"] not in self.multi:
+                ds = self.body.defs_of(p["l"])
+                if len(ds) == 1 and ds[0][1] != "term" and ds[0][2]["k"] == "ref" and not ds[0][2]["place"]["p"]:
+                    return env.get(ds[0][2]["place"]["l"])     # a shared reference to a tracked local
+            return v
+        if len(p["p"]) == 1 and p["p"][0]["k"] == "field":
+            return env.get((p["l"], p["p"][0]["i"]))
+        return None
+
+    def _assign(self, env, s):
+        pl, rv = s["place"], s["rv"]
+        if pl["p"]:
+            if len(pl["p"]) == 1 and pl["p"][0]["k"] == "field" and rv["k"] == "use":
+                v = self._val(env, rv["a"])
+                env[(pl["l"], pl["p"][0]["i"])] = v
+            return
+        l = pl["l"]
+        for k in [k for k in env if isinstance(k, tuple) and k[0] == l]:
+            del env[k]
+        if l in self.multi and "_site" in s:
+            env[("def", l)] = s["_site"]
+        v = None
+        k = rv["k"]
+        if k == "agg" and rv.get("ak") == "adt" and rv.get("is_enum"):
+            env[l] = ("var", rv.get("adt"), rv.get("variant"), rv.get("vi"))
+            return
+        if k == "discr" and not rv["place"]["p"]:
+            x = env.get(rv["place"]["l"])
+            env[l] = ("c", x[3]) if x is not None and x[0] == "var" and x[3] is not None else None
+            return
+        if k == "use":
+            v = self._val(env, rv["a"])
+            a = rv["a"]
+            if a["k"] == "const" and _is_debug_stmt(s):
+                v = None      # cfg!(debug_assertions): true in the dev-profile MIR, false in release builds: both edges are possible
+            if a["k"] != "const" and not a["place"]["p"]:
+                for kk in [kk for kk in env if isinstance(kk, tuple) and kk[0] == a["place"]["l"]]:
+                    env[(l, kk[1])] = env[kk]
+        elif k == "bin":
+            op = rv["op"].replace("WithOverflow", "")
+            if op in _CMPS:
+                v = ("cmp", op, canon_arith(expr(self.body, rv["a"])), canon_arith(expr(self.body, rv["b"])))
+                if _is_debug_stmt(s):
+                    v = ("dbg", v)
+            elif op in ("BitAnd", "BitOr") and self.body.local_ty(l) == "bool":
+                x, y = self._val(env, rv["a"]), self._val(env, rv["b"])
+                if x is not None and y is not None:
+                    v = ("and" if op == "BitAnd" else "or", x, y)
+        elif k == "un" and rv["op"] == "Not" and self.body.local_ty(l) == "bool":
+            x = self._val(env, rv["a"])
+            if x is not None:
+                v = ("c", 0 if x[1] else 1) if x[0] == "c" else ("not", x)
+        elif k == "agg" and rv.get("ak") == "tuple":
+            for i, f in enumerate(rv["fields"]):
+                env[(l, i)] = self._val(env, f)
+        env[l] = v
+
+    def _call_val(self, env, t):
+        b = self.body
+        nm = callee_name(t) or ""
+        a0 = self._val(env, t["args"][0]) if t["args"] and t["args"][0]["k"] != "const" else None
+        if a0 is not None and a0[0] == "var":
+            if re.search(r"ops::Try>::branch$|ops::Try::branch$", nm):
+                cont = a0[2] in ("Some", "Ok")
+                return ("var", "std::ops::ControlFlow", "Continue" if cont else "Break", 0 if cont else 1)
+            m = re.search(r"Option::<T>::(is_some|is_none)$|Result::<T, E>::(is_ok|is_err)$", nm)
+            if m:
+                want = {"is_some": "Some", "is_none": "None", "is_ok": "Ok", "is_err": "Err"}[m.group(1) or m.group(2)]
+                return ("c", 1 if a0[2] == want else 0)
+        if re.search(r"Range(Inclusive)?<\w+>( as std::ops::RangeBounds<\w+>)?>?::contains$|ops::Range(Inclusive)?::<\w+>::contains$", nm) and len(t["args"]) == 2:
+            r, x = expr(b, t["args"][0]), canon_arith(expr(b, t["args"][1]))
+            m = re.match(r"^Range\{start: (.*), end: (.*)\}$", r)
+            if m:
+                lo, hi = m.group(1), m.group(2)
+                if hi.count("(") == hi.count(")") and lo.count("(") == lo.count(")"):
+                    return ("and", ("cmp", "Le", lo, x), ("cmp", "Lt", x, canon_arith(hi)))
+            return None
+        m = re.search(r"(?:PartialOrd|PartialEq)(?:<[^<>]*>)?(?: for [^>]*)?>?::(lt|le|gt|ge|eq|ne)$", nm)
+        if m and len(t["args"]) == 2 and all(re.match(r"^&?(u|i)(8|16|32|64|128|size)$", re.sub(r"^&('\w+ )?", "&", x)) for x in (t.get("arg_tys") or ["?"])):
+            return ("cmp", m.group(1).capitalize(), canon_arith(expr(b, t["args"][0])), canon_arith(expr(b, t["args"][1])))
+        if not t["dest"]["p"] and b.local_ty(t["dest"]["l"]) == "bool":
+            # any other predicate: an opaque atom named by its canonical call term; the fact is (term, "is", "true" | "false")
+            from ..flow import _short_path
+            full = t["fn"].get("resolved") or t["fn"].get("path") or "?"
+            return ("pred", "%s(%s)" % (_short_path(full), ", ".join(expr(b, a) for a in t["args"])))
+        return None
+
+    def at(self, target, with_blocks=False, at_entry=False):
+        """list of (frozenset(facts), env) over the feasible acyclic paths from entry to the terminator of `target`; None = too many paths.
+        `target` may be a set of blocks: one walk, {block: list} (paths then continue past a target block).
+        with_blocks: triples (facts, env, set of blocks on the path); at_entry: the facts on entry to `target`, before its own statements' writes"""
+        many = not isinstance(target, int)
+        targets = set(target) if many else {target}
+        out = {t_: [] for t_ in targets}
+        self.steps = 0
+        body = self.body
+        stack = [(0, {}, frozenset(), frozenset())]
+        while stack:
+            bb, env, facts, seen = stack.pop()
+            self.steps += 1
+            if self.steps > self.LIMIT:
+                return None
+            blk = body.blocks[bb]
+            if blk["cleanup"]:
+                continue
+            env = dict(env)
+            for si, s in enumerate(blk["stmts"]):
+                if s["k"] == "assign":
+                    if not s["place"]["p"] and s["place"]["l"] in self.multi:
+                        s = dict(s, _site=(bb, si, s["rv"]))
+                    self._assign(env, s)
+            # facts about places that this block (or, at a loop head, any block of the loop) writes are dropped
+            stoks, ttoks = self._tokens(bb)
+            if bb in targets:
+                f0 = self._kill(facts, (set() if at_entry else stoks) | set(self._loop_tokens(bb)))
+                out[bb].append((f0, env, seen | {bb}) if with_blocks else (f0, env))
+                if not many:
+                    continue
+            facts = self._kill(facts, stoks | set(self._loop_tokens(bb)))
+            facts = self._kill(facts, ttoks)
+            seen = seen | {bb}
+            t = blk["term"]
+            k = t["k"]
+            nxt = []
+            if k == "switch":
+                v = self._val(env, t["d"]) if t["d"]["k"] != "const" else None
+                edges = [(val, tg) for val, tg in zip(t["vals"], t["targets"])] + [(None, t["otherwise"])]
+                is_bool = t["d"]["k"] != "const" and not t["d"]["place"]["p"] and body.local_ty(t["d"]["place"]["l"]) == "bool" or (v is not None)
+                for val, tg in edges:
+                    if val is not None:
+                        truth = val != "0"
+                    else:
+                        truth = True if t["vals"] == ["0"] else (False if t["vals"] == ["1"] else None)
+                    if v is not None and v[0] == "c":
+                        if (val is not None and int(val) != v[1]) or (val is None and str(v[1]) in t["vals"]):
+                            continue
+                        nxt.append((tg, facts))
+                    elif v is not None and is_bool and truth is not None:
+                        nxt.append((tg, facts | frozenset(implied(v, truth))))
+                    else:
+                        nxt.append((tg, facts))
+            elif k == "call":
+                if not t["dest"]["p"]:
+                    cv = self._call_val(env, t)
+                    self._assign(env, {"place": t["dest"], "rv": {"k": "opaque"}, "_site": (bb, "term", t)})
+                    env[t["dest"]["l"]] = cv
+                if t["t"] >= 0:
+                    nxt.append((t["t"], facts))
+            elif k in ("goto", "assert", "drop"):
+                if t["t"] >= 0:
+                    nxt.append((t["t"], facts))
+            for tg, f2 in nxt:
+                if tg not in seen:
+                    stack.append((tg, env, f2, seen))
+        return out if many else out[target]
+
+    def always(self, target, pred):
+        """does every feasible path to `target` carry a fact satisfying pred(lhs, rel, rhs)?  (vacuously true when unreachable)"""
+        r = self.at(target)
+        if r is None:
+            return False
+        return all(any(pred(*f) for f in facts) for facts, env in r)
+
+
+# ---- U8: two coordinate spaces ----------------------------------------------------------------------------
+# storage offsets (Shape::offset, shape.start/end, strides) index the backing slice; window indices
+# (row-major pos.row * width + pos.col, Shape::index) position a view iterator / feed Shape::nth.
+_top_call = split_call
 
 
 STORAGE_FIELD = re.compile(r"(?:[Ss]hape(?:\([^()]*\))?|arg1)\.(start|end|row_stride|col_stride)$")
@@ -121,6 +663,150 @@ def false_edge(t):
     return None, None
 
 
+def closure_upvars(prog, b, parent=None):
+    """{'arg1.K': term of the K-th captured value in the creating body} for a closure body"""
+    up = {}
+    if b.kind == "Closure":
+        cands = [parent] if parent is not None else []
+        cands += [prog.body(b.j.get("closure_parent") or ""), prog.body(b.closure_root or "")]
+        for par in cands:
+            if par is None:
+                continue
+            for i, si, s_ in par.assigns():
+                rv = s_["rv"]
+                if rv["k"] == "agg" and rv["ak"] == "closure" and rv["def"] == b.path:
+                    for k, f in enumerate(rv["fields"]):
+                        up["arg1.%d" % k] = expr(par, f)
+            if up:
+                break
+    return up
+
+
+ITER_CONSUMERS = r"Iterator(<[^>]*>)?>?::(for_each|try_for_each|map|filter_map|fold|try_fold|all|any|find|find_map|position|inspect)$"
+
+
+def closure_consumer(prog, cb):
+    """(creating body, bb, call terminator, name of the closure parameter that receives the element) for a closure that is handed
+    to exactly one call in the body that creates it; None otherwise"""
+    if cb.kind != "Closure":
+        return None
+    for par in (prog.body(cb.j.get("closure_parent") or ""), prog.body(cb.closure_root or "")):
+        if par is None:
+            continue
+        for i, si, s_ in par.assigns():
+            rv = s_["rv"]
+            if rv["k"] == "agg" and rv.get("ak") == "closure" and rv.get("def") == cb.path and not s_["place"]["p"]:
+                cl = s_["place"]["l"]
+                users = [(bb, t) for bb, t in par.calls() if any(a.get("k") in ("copy", "move") and a["place"]["l"] == cl and not a["place"]["p"] for a in t["args"])]
+                if len(users) != 1:
+                    return None
+                bb, t = users[0]
+                elem = "arg3" if call_matches(t, r"::(fold|try_fold)$") else "arg2"
+                return par, bb, t, elem
+    return None
+
+
+def closure_context(prog, cb, depth=0):
+    """{parameter / capture name of closure cb: term in the function that (transitively) creates it}: captures are what was captured,
+    the element parameter of a closure handed to an iterator adaptor is the element term of that iterator (iter_elem); closures nested
+    in closures are resolved outwards"""
+    cons = closure_consumer(prog, cb)
+    if cons is None or depth > 4:
+        return closure_upvars(prog, cb)
+    par, bb, t, elem_arg = cons
+    mp = dict(closure_upvars(prog, cb, par))
+    if call_matches(t, ITER_CONSUMERS) and t["args"]:
+        el = iter_elem(prog, par.path, expr(par, t["args"][0]))
+        if el is not None:
+            mp[elem_arg] = el
+    if par.kind == "Closure":
+        pm = closure_context(prog, par, depth + 1)
+        mp = {k: sub_terms(v, pm) for k, v in mp.items()}
+    return mp
+
+
+def _closure_of_term(prog, owner, term):
+    """(closure Body, [capture terms]) for a term `closure:{closure#k}[c0, c1]` computed inside body `owner`"""
+    m = re.match(r"^closure:(\{closure#\d+\})\[(.*)\]$", term)
+    if not m:
+        return None
+    cb = prog.body(owner + "::" + m.group(1))
+    if cb is None:
+        return None
+    tc = split_call("f(%s)" % m.group(2))
+    return cb, (tc[1] if tc else [])
+
+
+def iter_elem(prog, owner, it, depth=0):
+    """canonical term of the elements an iterator term yields, spelled like the induction variable of the equivalent `for` loop:
+    a range gives range::next(IntoIterator::into_iter(Range{..}))@Some.0, map/flat_map substitute it into what their closure returns,
+    adaptors that only drop or reorder elements are transparent.  `owner` = path of the body the term was computed in.  None = unknown."""
+    if depth > 6:
+        return None
+    it = it.strip()
+    if re.match(r"^Range\{start: .*, end: .*\}$", it):
+        return "range::next(IntoIterator::into_iter(%s))@Some.0" % it
+    tc = split_call(it)
+    if tc is None:
+        return None
+    nm, args = tc
+    if nm == "IntoIterator::into_iter" and len(args) == 1:
+        return iter_elem(prog, owner, args[0], depth + 1)
+    if nm in ("Iterator::filter", "Iterator::take", "Iterator::skip", "Iterator::rev", "Iterator::take_while", "Iterator::skip_while", "Iterator::inspect", "Iterator::fuse", "Iterator::peekable") and args:
+        return iter_elem(prog, owner, args[0], depth + 1)
+    if nm in ("Iterator::map", "Iterator::flat_map") and len(args) == 2:
+        inner = iter_elem(prog, owner, args[0], depth + 1)
+        cl = _closure_of_term(prog, owner, args[1])
+        if inner is None or cl is None:
+            return None
+        cb, caps = cl
+        mp = {"arg1.%d" % k: c for k, c in enumerate(caps)}
+        mp["arg2"] = inner
+        ret = sub_terms(expr(cb, {"k": "copy", "place": {"l": 0, "p": []}}), mp)
+        return ret if nm == "Iterator::map" else iter_elem(prog, cb.path, ret, depth + 1)
+    return None
+
+
+def sub_terms(e, mp):
+    """simultaneous substitution of whole sub-terms (longest keys first, word-bounded)"""
+    if not mp:
+        return e
+    keys = sorted(mp, key=len, reverse=True)
+    rx = re.compile("|".join(r"(?<![\w.])%s(?![\w])" % re.escape(k) for k in keys))
+    return rx.sub(lambda m: mp[m.group(0)], e)
+
+
+def _pos_terms(body, operand, up):
+    """(row term, col term) of a Position-valued operand: struct literal or Position::new(row, col)"""
+    if operand["k"] == "const":
+        return None, None
+    pl = operand["place"]
+    out = []
+    for i, nm in enumerate(("row", "col")):
+        e = place_expr(body, {"l": pl["l"], "p": pl["p"] + [{"k": "field", "i": i, "name": nm, "adt": "", "ty": "usize"}]})
+        m = re.match(r"^(Position::new\(.*\))\.(row|col)$", e)
+        if m:
+            tc = split_call(m.group(1))
+            e = tc[1][i] if tc and len(tc[1]) == 2 else e
+        out.append(sub_terms(e, up))
+    return out[0], out[1]
+
+
+def _nth_col_absint(prog, nb, bb):
+    """fallback: the abstract interpreter proves col < width at the then_some call"""
+    try:
+        an = Engine(prog).analyze(nb.path)
+        st = an.call_args.get(bb)
+        t = nb.blocks[bb]["term"]
+        pk = an.pkey(st, t["args"][1]["place"])
+        colv = st.vals.get(pk + ".col")
+        wt = st.term(st.vals.get(an.pkey(st, {"l": 1, "p": [{"k": "deref"}, {"k": "field", "i": 2, "name": "width", "adt": "", "ty": "usize"}]})))
+        ct = st.term(colv) if colv is not None else None
+        return ct is not None and wt is not None and bool(st.le(ct, wt, True))
+    except Exception:
+        return False
+
+
 def run(ctx):
     prog = ctx.prog
     ctx.explanation = (
@@ -142,6 +828,28 @@ def run(ctx):
     # ---------------- U1 unsafe deref ---------------------------------------------------------------
     ctx.rule("U1-UNSAFE", "every unsafe operation in surface.rs: raw deref guarded by offset < len of the same slice", floor=2)
     n_unsafe = 0
+    NTH = "<surface::SurfaceMutIter<'a, T> as std::iter::Iterator>::nth"
+    nth_inl = inlined_private(prog, NTH, keep=KEEP7)
+    nth_parts = {NTH} | ({blk.get("inl_from") for blk in nth_inl.blocks} - {None} if nth_inl is not None else set())
+    u1 = None
+
+    def _u1():
+        """(guarded?, why): the single ptr.add(off) on as_mut_ptr(D) is reached only with off < len(D) (any spelling of the test, any helper)"""
+        ib = nth_inl
+        adds = [(bb, t) for bb, t in ib.calls() if call_matches(t, r"mut_ptr::<impl \*mut T>::add$")]
+        if len(adds) != 1:
+            return False, "expected exactly one ptr.add in SurfaceMutIter::nth, found %d" % len(adds)
+        abb, at = adds[0]
+        ptr_e = expr(ib, at["args"][0])
+        off_e = canon_arith(expr(ib, at["args"][1]))
+        mm = re.match(r"^slice::as_mut_ptr\((.*)\)$", ptr_e)
+        if not mm:
+            return False, "pointer does not come from as_mut_ptr of a slice field: %s" % ptr_e
+        data_e = mm.group(1)
+        lens = ("slice::len(%s)" % data_e, "PtrMetadata(%s)" % data_e)
+        if PathEval(ib).always(abb, lambda x, rel, y: rel == "<" and x == off_e and y in lens):
+            return True, ""
+        return False, "ptr.add(%s) on %s is not dominated by the branch `%s < len(%s)`" % (off_e[:60], data_e, off_e[:60], data_e)
     for b in prog.bodies:
         if not b.file.endswith("surface.rs"):
             continue
@@ -150,41 +858,22 @@ def run(ctx):
             n_unsafe += 1
             ok = False
             why = "unsafe operation outside the single accepted site"
-            if b.path == "<surface::SurfaceMutIter<'a, T> as std::iter::Iterator>::nth":
-                cfg = b.cfg()
-                # find the ptr.add call
-                adds = [(bb, t) for bb, t in b.calls() if call_matches(t, r"mut_ptr::<impl \*mut T>::add$")]
-                if len(adds) == 1:
-                    abb, at = adds[0]
-                    ptr_e = expr(b, at["args"][0])
-                    off_e = expr(b, at["args"][1])
-                    mm = re.match(r"^slice::as_mut_ptr\((.*)\)$", ptr_e)
-                    if mm:
-                        data_e = mm.group(1)
-                        for sb, st, se in switches(b):
-                            ft, tt = false_edge(st)
-                            if se == "Ge(%s, slice::len(%s))" % (off_e, data_e) and ft is not None and cfg.edge_dominates(sb, ft, abb):
-                                ok = True
-                            if se == "Lt(%s, slice::len(%s))" % (off_e, data_e) and tt is not None and cfg.edge_dominates(sb, tt, abb):
-                                ok = True
-                        if not ok:
-                            why = "ptr.add(%s) on %s is not dominated by the branch `%s < len(%s)`" % (off_e[:60], data_e, off_e[:60], data_e)
-                    else:
-                        why = "pointer does not come from as_mut_ptr of a slice field: %s" % ptr_e
-                    if o.sub == "raw-deref":
-                        # the dereferenced pointer must be the result of that add
-                        pass
+            if b.path in nth_parts and nth_inl is not None:
+                if u1 is None:
+                    u1 = _u1()
+                ok, why = u1
             ctx.instance("U1-UNSAFE", {"fn": b.path, "op": o.sub, "site": o.site, "guarded": ok})
             if not ok:
                 ctx.violation("U1-UNSAFE", b.path, o.sub, "unsafe %s at %s: %s" % (o.sub, o.site, why), sites=[o.site])
     # ---------------- U2 get / get_mut ------------------------------------------------------------------
     ctx.rule("U2-GET", "Surface::get / SurfaceMut::get_mut / SurfaceMut::set: data access dominated by row < height and col < width (debug-only guards do not count)", floor=3)
     for path, getter in (("surface::Surface::get", r"slice::<impl \[T\]>::get$"), ("surface::SurfaceMut::get_mut", r"slice::<impl \[T\]>::get_mut$"), ("surface::SurfaceMut::set", r"^\$never")):
-        b = prog.body(path)
-        if b is None:
+        b0 = prog.body(path)
+        if b0 is None:
             ctx.anchor("U2-GET", path)
             continue
-        cfg = b.cfg()
+        # private helpers (a shared `is_outside`, a checked-offset routine, ..) are looked through
+        b = inlined_private(prog, path, keep=KEEP7)
         acc = [(bb, t) for bb, t in b.calls() if call_matches(t, getter) or call_matches(t, r"Index(Mut)?.*::index(_mut)?$")]
         for bb, t in b.terms():
             if t["k"] == "assert" and t["msg"]["kind"] == "BoundsCheck":
@@ -192,28 +881,20 @@ def run(ctx):
         if not acc:
             ctx.anchor("U2-GET", path + "/access")
             continue
+        pe = PathEval(b)
         for abb, at in acc:
-            need = {"row": False, "col": False}
-            for sb, st, se in switches(b):
-                ft, tt = false_edge(st)
-                if _debug_only(b, st):
-                    continue
-                m1 = re.match(r"^Ge\(arg2\.(row|col), (.*)\.(height|width)\)$", se)
-                m2 = re.match(r"^Lt\(arg2\.(row|col), (.*)\.(height|width)\)$", se)
-                if m1 and ft is not None and cfg.edge_dominates(sb, ft, abb):
-                    if (m1.group(1), m1.group(3)) in (("row", "height"), ("col", "width")) and "shape(arg1)" in m1.group(2):
-                        need[m1.group(1)] = True
-                if m2 and tt is not None and cfg.edge_dominates(sb, tt, abb):
-                    if (m2.group(1), m2.group(3)) in (("row", "height"), ("col", "width")) and "shape(arg1)" in m2.group(2):
-                        need[m2.group(1)] = True
+            # on every way to the access: pos.row < <own shape>.height and pos.col < <own shape>.width, whatever spelled the test
+            # (>=/< either operand order, !, &&, ||, early returns, match, a bool local, Range::contains, a helper predicate)
+            need = {}
+            for ax, dim in (("row", "height"), ("col", "width")):
+                need[ax] = pe.always(abb, lambda x, rel, y, ax=ax, dim=dim: rel == "<" and x == "arg2." + ax and y.endswith("." + dim) and "shape(arg1)" in y[:-len(dim) - 1])
             # the offset must be shape.offset(pos)
             off_ok = True
-            if at["k"] == "call" and len(at["args"]) > 1:
-                oe = expr(b, at["args"][1])
-                off_ok = bool(re.match(r"^Shape::offset\(.*shape\(arg1\), arg2\)$", oe))
-            if at["k"] == "assert":
-                oe = expr(b, at["msg"]["index"])
-                off_ok = bool(re.match(r"^Shape::offset\(.*shape\(arg1\), arg2\)$", oe))
+            oop = at["args"][1] if (at["k"] == "call" and len(at["args"]) > 1) else at["msg"]["index"] if at["k"] == "assert" else None
+            if oop is not None:
+                # on every way to the access (e.g. out of a helper that returns Some(offset) / None)
+                oes = pe.terms(abb, oop)
+                off_ok = oes is not None and all(re.match(r"^Shape::offset\(.*shape\(arg1\), arg2\)$", oe) for oe in oes)
             ctx.instance("U2-GET", {"fn": path, "row_guard": need["row"], "col_guard": need["col"], "offset_is_shape_offset": off_ok})
             for ax in ("row", "col"):
                 if not need[ax]:
@@ -226,12 +907,25 @@ def run(ctx):
     # ---------------- U3 Shape literal sites ---------------------------------------------------------------
     ctx.rule("U3-SHAPE", "Shape literals only in From<Size>::from, Shape::view (2) and Surface::transpose, with the expected field templates", floor=4)
     lits = []
+    allowed = {"<surface::Shape as std::convert::From<terminal::Size>>::from", "surface::Shape::view", "surface::Surface::transpose"}
+    part_of = {}       # private helper -> audited constructors it is expanded in (its literals are judged there, in the constructor's terms)
+    for path in sorted(allowed):
+        ib = inlined_private(prog, path, keep=KEEP7)
+        if ib is None:
+            continue
+        for blk in ib.blocks:
+            if blk.get("inl_from"):
+                part_of.setdefault(blk["inl_from"], set()).add(path)
     for b in prog.bodies:
+        if b.path in part_of:
+            ctxs = expanded_copies(prog, b.path, keep=KEEP7)
+            if ctxs and all(c.path in allowed for c in ctxs):
+                continue
+        b = inlined_private(prog, b.path, keep=KEEP7) if b.path in allowed else b
         for i, si, s in b.assigns():
             rv = s["rv"]
             if rv["k"] == "agg" and rv["ak"] == "adt" and rv["adt"] == "surface::Shape":
                 lits.append((b, s, {n: expr(b, f) for n, f in zip(rv["fnames"], rv["fields"])}))
-    allowed = {"<surface::Shape as std::convert::From<terminal::Size>>::from", "surface::Shape::view", "surface::Surface::transpose"}
     vb = r"ViewBounds::view_bounds\((arg[23]), arg1\.(width|height)\)@Some\.0\.([01])"
     for b, s, f in lits:
         site = "%s:%d" % (b.file, s["line"])
@@ -290,43 +984,62 @@ def run(ctx):
         ctx.anchor("U3-SHAPE", "Shape::offset")
     else:
         e = expr(ob, {"k": "copy", "place": {"l": 0, "p": []}})
-        okf = e in ("Add(Add(arg1.start, Mul(arg2.row, arg1.row_stride)), Mul(arg2.col, arg1.col_stride))",
-                    "Add(Add(arg1.start, Mul(arg2.col, arg1.col_stride)), Mul(arg2.row, arg1.row_stride))")
+        # start + row * row_stride + col * col_stride, in any association and operand order
+        okf = sorted(tuple(flat_prod(x)) for x in flat_sum(canon_arith(e))) == sorted([("arg1.start",), ("arg1.row_stride", "arg2.row"), ("arg1.col_stride", "arg2.col")])
         ctx.instance("U3-SHAPE", {"fn": ob.path, "formula": e, "ok": okf})
         if not okf:
             ctx.violation("U3-SHAPE", ob.path, "formula", "Shape::offset is not start + row*row_stride + col*col_stride: %s" % e, sites=[ob.loc])
 
     # ---------------- U4 POST(Shape::nth) ----------------------------------------------------------------------
     ctx.rule("U4-NTH", "Shape::nth: Some(Position{row, col}) has row < height and col < width", floor=1)
-    nb = prog.body("surface::Shape::nth")
-    if nb is None:
+    nb0 = prog.body("surface::Shape::nth")
+    if nb0 is None:
         ctx.anchor("U4-NTH", "Shape::nth")
     else:
-        eng = Engine(prog)
-        an = eng.analyze(nb.path)
-        found = 0
+        nb = inlined_private(prog, nb0.path, keep=KEEP7)
+        pe = PathEval(nb)
+        N, W, H = "arg2", "arg1.width", "arg1.height"
+        # every place where a Some(position) is made: cond.then_some(pos), cond.then(|| pos), Some(pos) under a branch
+        sites = []
         for bb, t in nb.calls():
-            if call_matches(t, r"bool::<impl bool>::then_some$|bool::then_some$"):
-                found += 1
-                st = an.call_args.get(bb)
-                cond = an.eval_op(st, t["args"][0], "q")
-                # position aggregate fields
-                pk = an.pkey(st, t["args"][1]["place"])
-                rowv, colv = st.vals.get(pk + ".row"), st.vals.get(pk + ".col")
-                ce = expr(nb, t["args"][0])
-                ok_row = ce == "Lt(Div(arg2, arg1.width), arg1.height)" and expr(nb, {"k": "copy", "place": {"l": t["args"][1]["place"]["l"], "p": [{"k": "field", "i": 0, "name": "row", "adt": "", "ty": "usize"}]}}) == "Div(arg2, arg1.width)"
-                # col < width by the remainder rule
-                wt = st.term(st.vals.get(an.pkey(st, {"l": 1, "p": [{"k": "deref"}, {"k": "field", "i": 2, "name": "width", "adt": "", "ty": "usize"}]})))
-                ct = st.term(colv) if colv is not None else None
-                ok_col = ct is not None and wt is not None and st.le(ct, wt, True)
-                ctx.instance("U4-NTH", {"cond": ce, "row_is_quotient_and_tested": ok_row, "col_lt_width": ok_col, "col": str(st.itv(colv)) if colv else None})
-                ctx.oblig(ok_row and ok_col, "POST")
-                if not ok_row:
-                    ctx.violation("U4-NTH", nb.path, "row", "Shape::nth does not guard the returned row with row < height (%s)" % ce, sites=[nb.loc])
-                if not ok_col:
-                    ctx.violation("U4-NTH", nb.path, "col", "Shape::nth: returned col is not provably < width (expected n - (n / width) * width)", sites=[nb.loc])
-        if not found:
-            ctx.anchor("U4-NTH", "nth/then_some")
+            if call_matches(t, r"bool::<impl bool>::then_some$|bool::then_some$") and re.search(r"Position", nb.local_ty(t["dest"]["l"])):
+                sites.append((bb, t["args"][0], _pos_terms(nb, t["args"][1], {}), "then_some"))
+            elif call_matches(t, r"bool::<impl bool>::then$|bool::then$") and re.search(r"Position", nb.local_ty(t["dest"]["l"])):
+                cl = expr(nb, t["args"][1])
+                cb = next((c for c in prog.closures_of(nb0) if cl.startswith("closure:%s[" % c.path.split("::")[-1])), None)
+                if cb is not None:
+                    up = closure_upvars(prog, cb, nb)
+                    sites.append((bb, t["args"][0], _pos_terms(cb, {"k": "copy", "place": {"l": 0, "p": []}}, up), "then"))
+        for i, si, s_ in nb.assigns():
+            rv = s_["rv"]
+            if rv["k"] == "agg" and rv.get("ak") == "adt" and rv.get("variant") == "Some" and re.search(r"Option<terminal::Position>", nb.local_ty(s_["place"]["l"])) and not s_.get("inl_ret"):
+                sites.append((i, None, _pos_terms(nb, rv["fields"][0], {}), "Some"))
+        for bb, cond, (row_e, col_e), kind in sites:
+            paths = pe.at(bb)
+            allf = []
+            for facts, env in paths or []:
+                f2 = set(facts)
+                if cond is not None:
+                    f2 |= set(implied(pe._val(env, cond), True))
+                allf.append(f2)
+            row_e, col_e = canon_arith(row_e or "?"), canon_arith(col_e or "?")
+            quot = "Div(%s, %s)" % (N, W)
+            ok_row = paths is not None and row_e == quot and all((row_e, "<", H) in f for f in allf)
+            # col < width: the remainder of n by width in any spelling, or an explicit test
+            tc = split_call(col_e)
+            ok_col = col_e == "Rem(%s, %s)" % (N, W) \
+                or bool(tc and tc[0] == "Sub" and len(tc[1]) == 2 and tc[1][0] == N and flat_prod(tc[1][1]) == sorted([quot, W])) \
+                or (paths is not None and all((col_e, "<", W) in f for f in allf))
+            if not ok_col and kind == "then_some" and nb is nb0:
+                ok_col = _nth_col_absint(prog, nb0, bb)
+            ctx.instance("U4-NTH", {"site": kind, "row": row_e, "col": col_e, "row_is_quotient_and_tested": ok_row, "col_lt_width": ok_col})
+            ctx.oblig(ok_row and ok_col, "POST")
+            if not ok_row:
+                ctx.violation("U4-NTH", nb0.path, "row", "Shape::nth does not guard the returned row (%s) with row < height, or the row is not n / width" % row_e[:80], sites=[nb0.loc])
+            if not ok_col:
+                ctx.violation("U4-NTH", nb0.path, "col", "Shape::nth: returned col (%s) is not provably < width (expected n %% width or n - (n / width) * width)" % col_e[:80], sites=[nb0.loc])
+        if not sites:
+            ctx.anchor("U4-NTH", "nth/Some-sites")
 
     # ---------------- U5 loops over the window --------------------------------------------------------------------
     ctx.rule("U5-LOOPS", "data[shape.offset(Position::new(row, col))] with row from 0..shape.height and col from 0..shape.width", floor=5)
@@ -342,7 +1055,13 @@ def run(ctx):
             if idx_e is None or "Shape::offset" not in idx_e:
                 continue
             if b.kind == "Closure":
-                continue   # closures index with a position handed in by new_with (checked below)
+                # a closure driven by an iterator chain (`(0..h).flat_map(|r| (0..w).map(move |c| Position::new(r, c))).for_each(|pos| ..)`) is the
+                # same loop: the element term of the chain is substituted for the closure's parameter; closures handed to new_with get
+                # their position from new_with(shape.size(), ..) (checked below)
+                cons = closure_consumer(prog, b)
+                if cons is None or not call_matches(cons[2], ITER_CONSUMERS):
+                    continue
+                idx_e = sub_terms(idx_e, closure_context(prog, b))
             if b.path == "surface::SurfaceMut::set":
                 continue   # caller-supplied position: covered by the guard rule U2
             n_loops += 1
@@ -378,15 +1097,20 @@ def run(ctx):
             continue
         if b.name in ("data", "data_mut"):
             continue
+        # inside a closure the slice is a captured value: name it by what was captured
+        up7 = closure_context(prog, b) if b.kind == "Closure" else {}
+
+        def ex7(o, b=b, up7=up7):
+            return sub_terms(expr(b, o), up7)
         for bb, t in b.calls():
             if call_matches(t, OK_CALLEES):
                 for a in t["args"][:1]:
-                    if re.match(DATA_RX, expr(b, a)):
+                    if re.match(DATA_RX, ex7(a)):
                         n_uses += 1
                         ctx.instance("U7-ELEMENTWISE", {"fn": b.path, "use": callee_name(t).split("::")[-1], "ok": True}, nontrivial=False)
                 continue
             for a in t["args"]:
-                e = expr(b, a)
+                e = ex7(a)
                 if re.match(DATA_RX, e) and not e.startswith("Surface::data(Surface::as_ref") :
                     n_uses += 1
                     ctx.instance("U7-ELEMENTWISE", {"fn": b.path, "use": callee_name(t), "ok": False})
@@ -394,7 +1118,7 @@ def run(ctx):
                                   "the backing data slice is handed to %s: bulk/slice operations ignore the view's strides and window (only element-wise access through shape.offset is audited)" % callee_name(t),
                                   sites=["%s:%d" % (b.file, t["line"])])
         for bb, t in b.terms():
-            if t["k"] == "assert" and t["msg"]["kind"] == "BoundsCheck" and re.search(r"PtrMetadata\((Surface::data|SurfaceMut::data_mut)\(", expr(b, t["msg"]["len"])):
+            if t["k"] == "assert" and t["msg"]["kind"] == "BoundsCheck" and re.search(r"PtrMetadata\((Surface::data|SurfaceMut::data_mut)\(", ex7(t["msg"]["len"])):
                 n_uses += 1
                 ctx.instance("U7-ELEMENTWISE", {"fn": b.path, "use": "index", "ok": True}, nontrivial=False)
     if n_uses == 0:
@@ -405,25 +1129,14 @@ def run(ctx):
              "provided Surface/SurfaceMut methods position their iterator at pos.row * width + pos.col of the receiver", floor=21)
     POS_CALL = r"Iterator>?::(nth|skip|advance_by|nth_back|step_by)$"
     SURF_ITER_TY = r"surface::Surface(Pos)?(Mut)?(Pos)?Iter\b"
-    DATA_TERM = r"^(PtrMetadata\()?(slice::as_mut_ptr\(|slice::as_ptr\()?(Surface::data\(|SurfaceMut::data_mut\(|arg1\.data\b)"
+    DATA_TERM = r"^(PtrMetadata\()?(slice::as_mut_ptr\(|slice::as_ptr\()?(Surface::data\(|SurfaceMut::data_mut\(|arg1(\.\w+)*\.data\b)"
     SLICE_ACC = r"slice::<impl \[T\]>::(get|get_mut|get_unchecked|get_unchecked_mut)$|mut_ptr::<impl \*mut T>::add$|const_ptr::<impl \*const T>::add$"
 
     def _upvars(b):
-        up = {}
-        if b.kind == "Closure":
-            parent = prog.body(b.j.get("closure_parent") or "") or prog.body(b.closure_root or "")
-            if parent is not None:
-                for i, si, s_ in parent.assigns():
-                    rv = s_["rv"]
-                    if rv["k"] == "agg" and rv["ak"] == "closure" and rv["def"] == b.path:
-                        for k, f in enumerate(rv["fields"]):
-                            up["arg1.%d" % k] = expr(parent, f)
-        return up
+        return closure_context(prog, b) if b.kind == "Closure" else {}
 
     def _sub_up(e, up):
-        for k in sorted(up, key=len, reverse=True):
-            e = re.sub(re.escape(k) + r"\b", up[k].replace("\\", "\\\\"), e)
-        return e
+        return sub_terms(e, up)
 
     # anchors: the two conversion routines and the width accessor
     ib = prog.body("surface::Shape::index")
@@ -442,8 +1155,18 @@ def run(ctx):
     if not okw:
         ctx.anchor("U8-INDEX", "Surface::width")
     WIDTHS = ("Surface::width(arg1)", "Surface::shape(arg1).width", "Surface::size(arg1).width", "Shape::size(Surface::shape(arg1)).width")
+    def ix_terms(b, bb, operand):
+        """candidate terms of an index operand at block bb: the static term when it already is an offset term, otherwise the terms
+        on every feasible path (an offset that comes out of a helper returning Some(offset) / None, a phi of two offsets ..)"""
+        ie = canon_arith(expr(b, operand))
+        if ie.startswith("Shape::offset("):
+            return [ie]
+        ts = PathEval(b).terms(bb, operand)
+        return sorted(ts) if ts else [ie]
     for b in prog.bodies:
         in_surface = b.file.endswith("surface.rs")
+        if in_surface and b.kind != "Closure":
+            b = inlined_private(prog, b.path, keep=KEEP7) or b      # private helpers of the surface routines are part of them
         up = None
         for bb, t in b.calls():
             site = "%s:%d" % (b.file, t["line"])
@@ -459,7 +1182,7 @@ def run(ctx):
             if call_matches(t, r"^surface::Shape::nth$") and len(t["args"]) == 2:
                 is_pos = True
             if is_pos:
-                cnt = expr(b, t["args"][1])
+                cnt = canon_arith(expr(b, t["args"][1]))
                 sp = space_of(cnt)
                 ok = sp in ("window", "other")
                 why = "the count handed to %s is a %s value (%s): a storage offset differs from the row-major index for every view with start != 0 or strides != (width, 1)" % (short, sp, cnt[:160])
@@ -494,8 +1217,9 @@ def run(ctx):
                 up = _upvars(b)
             # B. element access to the backing data
             if call_matches(t, SLICE_ACC) and len(t["args"]) == 2 and re.match(DATA_TERM, _sub_up(expr(b, t["args"][0]), up)):
-                ie = expr(b, t["args"][1])
-                ok = space_of(ie) == "storage" and ie.startswith("Shape::offset(")
+                ies = ix_terms(b, bb, t["args"][1])
+                ok = all(space_of(x) == "storage" and x.startswith("Shape::offset(") for x in ies)
+                ie = " | ".join(ies)
                 ctx.instance("U8-INDEX", {"fn": b.path, "data_access": short, "index": ie[:120], "ok": ok})
                 if not ok:
                     ctx.violation("U8-INDEX", b.path, "%s-index" % short, "the backing slice is accessed at %s, which is not a Shape::offset(..) of the view (a row-major index addresses the parent's cells only for an untransposed full-width view at the origin)" % ie[:160], sites=[site])
@@ -528,8 +1252,9 @@ def run(ctx):
                 le = _sub_up(expr(b, t["msg"]["len"]), up)
                 if not re.match(DATA_TERM, le):
                     continue
-                ie = expr(b, t["msg"]["index"])
-                ok = space_of(ie) == "storage" and ie.startswith("Shape::offset(")
+                ies = ix_terms(b, bb, t["msg"]["index"])
+                ok = all(space_of(x) == "storage" and x.startswith("Shape::offset(") for x in ies)
+                ie = " | ".join(ies)
                 ctx.instance("U8-INDEX", {"fn": b.path, "data_access": "index", "index": ie[:120], "ok": ok})
                 if not ok:
                     ctx.violation("U8-INDEX", b.path, "data-index", "the backing slice is indexed with %s, which is not a Shape::offset(..) of the view" % ie[:160], sites=["%s:%d" % (b.file, t["line"])])
@@ -545,7 +1270,7 @@ def run(ctx):
             pe = resolve_place(it, s["place"])
             if pe == "(*_1).index":
                 ws.append((i, s, expr_rv(it, s)))
-        okw = len(ws) == 1 and ws[0][2] in ("Add(arg1.index, Add(arg2, 1))", "Add(Add(arg1.index, arg2), 1)")
+        okw = len(ws) == 1 and flat_sum(canon_arith(ws[0][2])) == sorted(["arg1.index", "arg2", "1"])
         cfg = it.cfg()
         adds = [bb for bb, t in it.calls() if call_matches(t, r"mut_ptr::<impl \*mut T>::add$")]
         dom = okw and all(cfg.dominates(ws[0][0], a) for a in adds)
